@@ -80,7 +80,18 @@ pub fn run_grid(run: &Run, tier: Tier, profile: &str, shard: usize, nshards: usi
       cells.push(c);
     }
   }
-  let starts = fragmented_starts();
+  // minimum segment size 0 (whatever can hold a node word is listed) and calls through a clone of the arena value
+  for fl in [Fl::Optimistic, Fl::Pessimistic] {
+    let mut c = Cfg::new(fl, Backend::Vec, true, 256);
+    c.min_seg = 0;
+    cells.push(c);
+    let mut c = Cfg::new(fl, Backend::Vec, fl == Fl::Optimistic, if fl == Fl::Optimistic { 256 } else { 225 });
+    c.via_clone = true;
+    cells.push(c);
+  }
+  let mut starts = fragmented_starts();
+  // one machine word, then everything that is left: the word can be given back while it is not on top
+  starts.push(Start { name: "word+rest".into(), setup: vec![Setup::Do(Op::T(Ty::L(8, 8))), Setup::Do(Op::B(Sz::R))] });
   let mut items = vec![];
   for ci in 0..cells.len() {
     for si in 0..starts.len() {
